@@ -54,7 +54,7 @@ def draw_metrics(rng, n):
 
 
 def call(a):
-    G, u = a
+    G, u, uvw = a
     import importlib
     import numpy as np
     res = {}
@@ -62,7 +62,8 @@ def call(a):
     for modname in ("tools", "laue"):
         mod = importlib.import_module("xfab." + modname)
         try:
-            res[modname] = [float(x) for x in mod.reduce_cell(cell)]
+            # the default search range is uvw = 3; other values go through the optional argument
+            res[modname] = [float(x) for x in (mod.reduce_cell(cell) if uvw == 3 else mod.reduce_cell(cell, uvw=uvw))]
         except Exception as ex:
             res[modname] = "EXC " + repr(ex)
     return cell, res
@@ -75,20 +76,27 @@ def run(tier, seed, pid="C18"):
     wd = common.workdir(pid)
     rng = random.Random(seed + 18)
     metrics = draw_metrics(rng, 120 if tier == "quick" else 6000)
-    common.write_data_module(wd, "ReduceCases", {"Metrics": common.TlaSet(metrics)})
+    cases = []
+    for k, m in enumerate(metrics):
+        cases.append([m, 3])
+        if k % 4 == 0:
+            cases.append([m, 2])
+        if k % 10 == 0:
+            cases.append([m, 4])
+    common.write_data_module(wd, "ReduceCases", {"Metrics": common.TlaSet(cases)})
     r = common.run_tlc("ReduceCell", "MC_ReduceCell.cfg", wd, timeout=3000, heap="12g")
     if r.violated:
         raise common.MachineryError("ReduceCell.tla: %s violated" % r.violated)
     outcomes = collections.defaultdict(list)
     for x in r.records:
-        outcomes[tuple(x["G"])].append(x)
+        outcomes[(tuple(x["G"]), x["uvw"])].append(x)
     # per-metric scale, log-uniform: small scales bring the squared lengths of different lattice vectors within 1 A^2
-    todo = [(list(G), 10 ** rng.uniform(-0.9, 0.9)) for G in sorted(outcomes)]
+    todo = [(list(G), 10 ** rng.uniform(-0.9, 0.9), uvw) for (G, uvw) in sorted(outcomes)]
     res = common.pmap(call, todo, chunk=4)
     skipped = 0
     n_known = 0
-    for (G, u), (cell, got) in zip(todo, res):
-        outs = outcomes[tuple(G)]
+    for (G, u, uvw), (cell, got) in zip(todo, res):
+        outs = outcomes[(tuple(G), uvw)]
         if any(o["pc"] != "done" or abs(o["detV"]) != 1 for o in outs):
             skipped += 1           # search range too small for this metric: outside the quantifier
             continue
@@ -106,8 +114,8 @@ def run(tier, seed, pid="C18"):
             except Exception:
                 pass
         for modname, c in got.items():
-            desc = {"metric": G, "scale": u, "cell": cell, "module": modname, "outcomes": [o["V"] for o in outs][:4], "returned": c}
-            v.case((tuple(G), modname), sample=desc if len(v.samples) < 3 else None)
+            desc = {"metric": G, "scale": u, "uvw": uvw, "cell": cell, "module": modname, "outcomes": [o["V"] for o in outs][:4], "returned": c}
+            v.case((tuple(G), uvw, modname), sample=desc if len(v.samples) < 3 else None)
             if isinstance(c, str):
                 v.violation("reduce_cell raised %s (xfab.%s, metric %s)" % (c, modname, G), desc)
                 continue
@@ -118,8 +126,8 @@ def run(tier, seed, pid="C18"):
                 n_known += 1
                 continue
             v.violation("reduce_cell(%s) = %s is not the cell of any basis the shortest-vector search can return "
-                        "(e.g. %s for index vectors %s) (xfab.%s, metric %s)" %
-                        ([round(x, 6) for x in cell], [round(x, 6) for x in c], [round(x, 6) for x in wantA[0]], outs[0]["V"], modname, G), desc)
+                        "(e.g. %s for index vectors %s) (xfab.%s, metric %s, uvw=%d)" %
+                        ([round(x, 6) for x in cell], [round(x, 6) for x in c], [round(x, 6) for x in wantA[0]], outs[0]["V"], modname, G, uvw), desc)
     if v.violations:
         seen = {}
         for q in v.violations:
